@@ -3,8 +3,8 @@ package kernel
 import (
 	"fmt"
 	"hash/fnv"
-	"os"
 	mathrand "math/rand"
+	"os"
 	"runtime/debug"
 	"sort"
 	"strings"
